@@ -20,7 +20,11 @@ and free_model's event count equals it as well.
 Second layer (lib/c14x_layer.py, model coq/Rt/HeapX.v): every type kind x three flag sets under
 RESET + re-decode (top level and member by member), extensible types and open type holders
 under faults at every byte of every encoding; leaf structures compared with the model on the
-byte level.  The oracle itself lives in lib/c14_util.py (check_history)."""
+byte level.  The oracle itself lives in lib/c14_util.py (check_history).
+Third layer (lib/c14w_layer.py + lib/c14w_enc.py, model coq/Rt/HeapW.v): decoder-internal refusals of well-formed hostile
+input (bomb guards, stack guard, unknown CHOICE index, announced counts / additions, repeated members, tag and length bombs)
+produced by independent encoders that can lie, and the encoder side of the lifecycle (asn_encode_to_new_buffer,
+uper_encode_to_new_buffer, xer_equivalent, xer_fprint on values no encoder accepts, every allocation failing in turn)."""
 import sys, os, re, json, subprocess, time
 from concurrent.futures import ThreadPoolExecutor
 sys.path.insert(0, os.path.join(os.path.dirname(os.path.abspath(__file__)), "..", "lib"))
